@@ -1,7 +1,7 @@
 From Coq Require Import Extraction ExtrOcamlBasic ZArith NArith.
-From SF Require Import Base.Outcome Base.GeomAST Model.RTree Model.RTreeHeap.
+From SF Require Import Base.Outcome Base.GeomAST Model.RTree Model.RTreeHeap Model.RTreeScale.
 Extraction Language OCaml.
 (* is_empty only pulls in the geometry types the shared OCaml glue (sfio.ml) is written against *)
 Extraction "model.ml" bulk_load range_search range_search_today priority_search pop_min nearest
   count extent tree_inv tree_leaves range_ok prio_ok nearest_ok extent_ok count_ok qp_split_ok
-  script sqdist overlap split2 priority_search_heap nearest_heap is_empty N.add N.of_nat N.to_nat.
+  script sqdist overlap split2 prio_ok_rel nearest_ok_rel le_or le_dist priority_search_heap nearest_heap is_empty N.add N.of_nat N.to_nat.
